@@ -304,7 +304,17 @@ func drawValue(rt *rapid.T, label string, allowEqHash bool) string {
 
 func TestC04_Identities(t *testing.T) {
 	rec := stats.New(t, "C04", rule)
-	rp.Check(t, 16000, 2000000, func(rt *rapid.T) {
+	rp.Check(t, 16000, 2000000, identityProp(rec))
+}
+
+// FuzzC04_Identities drives the same property with Go's coverage-guided fuzzer (thorough tier).
+func FuzzC04_Identities(f *testing.F) {
+	rec := stats.New(f, "C04", rule)
+	f.Fuzz(rapid.MakeFuzz(identityProp(rec)))
+}
+
+func identityProp(rec *stats.Recorder) func(rt *rapid.T) {
+	return func(rt *rapid.T) {
 		c := Case{Format: rp.Pick(rt, "format", envb.MTJWS, envb.MTCOSE), Scheme: rp.Pick(rt, "scheme", "x509", "x509", "sa")}
 		// leaf subject
 		shape := rp.Pick(rt, "leafShape", "plain", "plain", "plain", "plain", "plain", "duplicate", "multivalued", "missing-mandatory", "unknown-type", "eqhash-value")
@@ -504,7 +514,7 @@ func TestC04_Identities(t *testing.T) {
 				rec.Failf(rt, "C04:metamorphic:rendering-changes-verdict", map[string]any{"a": c, "b": c2}, "verdict %v with %q but %v with %q", got, idTexts, authErr2 == nil, c2.Idents)
 			}
 		}
-	})
+	}
 }
 
 // TestC04_InvalidIdentity: an identity that cannot be interpreted never yields a usable
